@@ -339,6 +339,60 @@ def differential(rep, ci, cases):
     return out, runs
 
 
+def opaque_stream(rep, rng, n_cases):
+    """Oracle-only stream: wires carrying arbitrary Python values (lists, strings, None,
+    dicts) through diagrams of structural boxes and value-agnostic functions; the result
+    must be what the independent list-splicing evaluator computes.  (Tuples on a single
+    wire are excluded: they are ambiguous under the 1-tuple convention, see notes/C19.md.)"""
+    from discopy.cartesian import Box, Id, Swap, Copy, Discard
+    import cart_impl as ci
+    pool_vals = [[1, 2], [], "ab", None, {"k": 1}, [[3]], 7, [0], "", [None, "x"]]
+    lib = [Box("ident", 1, 1, lambda a: a), Box("dup", 1, 2, lambda a: (a, a)),
+           Box("flip", 2, 2, lambda a, b: (b, a)), Box("first", 2, 1, lambda a, b: a),
+           Box("pair", 2, 1, lambda a, b: [a, b]), Box("unit", 0, 1, lambda: []),
+           Box("drop", 1, 0, lambda a: ()), Box("wrap", 1, 1, lambda a: [a])]
+    bad = []
+    for _ in range(n_cases):
+        n = rng.randint(0, 3)
+        d = Id(n)
+        for _ in range(rng.randint(1, 4)):
+            w = len(d.cod)
+            r = rng.random()
+            if r < 0.2 and w >= 2:
+                k = rng.randint(1, w - 1)
+                layer, off, used = Swap(k, w - k), 0, w
+            elif r < 0.35 and w >= 1:
+                k = rng.randint(1, w)
+                off = rng.randint(0, w - k)
+                layer, used = Copy(k), k
+            elif r < 0.45 and w >= 1:
+                k = rng.randint(1, w)
+                off = rng.randint(0, w - k)
+                layer, used = Discard(k), k
+            else:
+                b = rng.choice([x for x in lib if len(x.dom) <= w])
+                off = rng.randint(0, w - len(b.dom))
+                layer, used = b, len(b.dom)
+            d = d >> Id(off) @ layer @ Id(w - off - used)
+        vals = tuple(rng.choice(pool_vals) for _ in range(n))
+        rep.case(["opaque", repr(d), repr(vals)], nontrivial=True)
+        rep.count("stream:opaque-values")
+        want = ci.splice_eval(d, vals)
+        try:
+            got = d(*vals)
+        except Exception as exc:   # noqa
+            got = ("raise", type(exc).__name__)
+        else:
+            got = ("ok", got if isinstance(got, tuple) and len(d.cod) != 1 else (got,))
+        if want[0] == "ok" and len(d.cod) == 1 and isinstance(want[1][0], tuple):
+            continue
+        if got != want:
+            bad.append(("calling a diagram on opaque (non-numeric) wire values differs from feeding them through the "
+                        "boxes in order", {"diagram": repr(d), "inputs": repr(vals), "got": repr(got), "want": repr(want)}))
+    for what, payload in bad[:MAX_RECORDED]:
+        rep.violation(what, payload)
+
+
 def run(tier, seed):
     import cart_impl as ci
     rep = Report("C19", tier, seed)
@@ -365,6 +419,7 @@ def run(tier, seed):
         elif bad:
             rep.violation(bad, {"program": p, "pretty": ci.pretty(p), "impl": impl,
                                 "replay": snippet(p)})
+    opaque_stream(rep, random.Random(seed + 19), 300 if tier == "quick" else 6000)
     saved = base.snippet
     base.snippet = lambda cls_name, program: snippet(program)
     try:
